@@ -176,7 +176,7 @@ func c04syntheticModule() map[string]ugo.Object {
 		"aempty": ugo.Array{}, "map": ugo.Map{"k": ugo.Int(1), "n": ugo.Map{}, "": ugo.String("empty key, nested")}, "mempty": ugo.Map{},
 		"": ugo.String("attribute with the empty name"), " ": ugo.Int(32), "ключ": ugo.String("non-ascii key"),
 		"smapkeys": &ugo.SyncMap{Value: ugo.Map{"": ugo.Int(1), "a": ugo.Int(2), "b": ugo.Int(3)}},
-		"err": &ugo.Error{Name: "ModErr", Message: "m"}, "sync": &ugo.SyncMap{Value: ugo.Map{"a": ugo.Int(1)}},
+		"err":      &ugo.Error{Name: "ModErr", Message: "m"}, "sync": &ugo.SyncMap{Value: ugo.Map{"a": ugo.Int(1)}},
 		"fn":  &ugo.Function{Name: "fn", Value: func(a ...ugo.Object) (ugo.Object, error) { return ugo.Int(len(a)), nil }},
 		"bfn": ugo.BuiltinObjects[ugo.BuiltinTypeName],
 		// functions nested in container attributes
